@@ -356,6 +356,31 @@ func generate(r *rng.R, mode string, hist int, s *sut) History {
 			}
 			add(Op{Kind: "browse", Ch: 0, Tok: "s0", Browses: bds})
 		}
+		// the added namespace of the other kind: a MapNamespace makes its references up from the keys of a map
+		if s.mapns != nil {
+			mns := s.mapns.ID()
+			for k := r.Range(2, 4); k > 0; k-- {
+				var bds []BDesc
+				for j := r.Range(1, 3); j > 0; j-- {
+					var node *ua.NodeID
+					switch r.Intn(6) {
+					case 0:
+						node = ua.NewNumericNodeID(mns, 84)
+					case 1:
+						node = ua.NewStringNodeID(mns, "alpha")
+					default:
+						node = ua.NewNumericNodeID(mns, 85)
+					}
+					rt := uint32(r.Pick(0, 0, 47, 47, 35, 33, 34, 31, 32, 40, 46))
+					mask := uint32(0)
+					if r.Intn(3) == 0 {
+						mask = uint32(r.Pick(1, 2, 4, 255))
+					}
+					bds = append(bds, BDesc{Node: nidOf(node), Dir: uint32(r.Pick(0, 0, 1, 2, 3)), RefType: nidOf(ua.NewNumericNodeID(0, rt)), Subtypes: r.Bool(), Mask: mask})
+				}
+				add(Op{Kind: "browse", Ch: 0, Tok: "s0", Browses: bds, MapNS: true})
+			}
+		}
 	case "c32", "c35", "c29":
 		if mode == "c29" && hist%6 == 3 {
 			// notification storm: a monitored node keeps changing after its item / subscription is gone. Every write must
